@@ -82,7 +82,7 @@ class Ctx:
         self.violations = []
         self.c = {k: 0 for k in REQUIRED}
         self.c.update({
-            "comparisons": 0, "skipped_active_active_pairs": 0, "skipped_both_raised": 0, "skipped_not_implemented": 0,
+            "comparisons": 0, "failed_comparisons": 0, "skipped_active_active_pairs": 0, "skipped_both_raised": 0, "skipped_not_implemented": 0,
             "skipped_tiny_branches": 0, "skipped_zero_norm_postselection": 0, "programs_run": 0,
             "deterministic_routing_checks": 0, "ffock_signed_amplitude_comparisons": 0, "gate_measurement_exchanges": 0,
             "max_dev_over_tol": 0.0, "max_abs_dev": 0.0,
@@ -102,7 +102,11 @@ class Ctx:
         d[key] = d.get(key, 0) + n
 
     def dev(self, dev, tol):
+        """Largest deviation among the comparisons that held, against its tolerance (failed ones become violations)."""
         self.c["comparisons"] += 1
+        if not dev <= tol:
+            self.c["failed_comparisons"] += 1
+            return
         if tol > 0:
             self.c["max_dev_over_tol"] = max(self.c["max_dev_over_tol"], float(dev) / tol)
         self.c["max_abs_dev"] = max(self.c["max_abs_dev"], float(dev))
@@ -285,22 +289,40 @@ def relabel(doc, pi):
     return new
 
 
-def map_outcome(doc, pi, outcome):
-    """Outcome tuple of pi(p) that corresponds to `outcome` of p."""
+def outcome_labels(doc, quirk=False):
+    """For every ParticleNumberMeasurement in program order: the mode label each outcome entry belongs to.
+    Entries follow the order inside the measurement's tuple (ascending active modes for an all-mode measurement).
+    quirk=True describes what PassiveSimulator does on the unchanged tree when an explicit tuple covers all active modes:
+    it ignores the tuple order (finding passive-full-measurement-ignores-tuple-order)."""
     acts = active_before(doc)
     out = []
-    pos = 0
     for k, idoc in enumerate(doc["ins"]):
         if idoc["t"] != "ParticleNumberMeasurement":
             continue
-        if idoc.get("m") is not None:
-            n = len(idoc["m"])
-            out.extend(outcome[pos:pos + n])
+        if idoc.get("m") is None:
+            out.append(list(acts[k]))
+        elif quirk and doc["sim"] == "passive" and set(idoc["m"]) == set(acts[k]):
+            out.append(sorted(idoc["m"]))
         else:
-            n = len(acts[k])
-            out.extend(_perm_vec(list(outcome[pos:pos + n]), induced(pi, acts[k])))
-        pos += n
-    if pos != len(outcome):
+            out.append(list(idoc["m"]))
+    return out
+
+
+def has_full_tuple_quirk(doc):
+    return outcome_labels(doc, True) != outcome_labels(doc, False)
+
+
+def map_outcome(doc, partner, pi, outcome, quirk=False):
+    """Outcome tuple of the relabelled program `partner` = pi(doc) that corresponds to `outcome` of doc."""
+    la = outcome_labels(doc, quirk)
+    lb = outcome_labels(partner, quirk)
+    out = []
+    pos = 0
+    for seg_a, seg_b in zip(la, lb):
+        count = {pi[m]: outcome[pos + j] for j, m in enumerate(seg_a)}
+        out.extend(count[m] for m in seg_b)
+        pos += len(seg_a)
+    if pos != len(outcome) or len(la) != len(lb):
         raise AssertionError("outcome length %d does not match the measurements of the document (%d)" % (len(outcome), pos))
     return tuple(out)
 
@@ -405,7 +427,12 @@ def observe(ctx, doc, res):
         key = tuple(int(x) if float(x).is_integer() else float(x) for x in b.outcome)
         if key in out:
             raise AssertionError("two branches with the same outcome %r" % (key,))
-        out[key] = (float(b.frequency), observe_state(ctx, doc["sim"], b.state, n_in))
+        o = observe_state(ctx, doc["sim"], b.state, n_in)
+        if o is not None and "U" in o and any(i["t"] in ("Kerr", "CrossKerr") for i in doc["ins"]):
+            # a Kerr gate folds the interferometer applied so far into the (occupations, coefficients) list and resets it:
+            # the interferometer attribute alone is then representation dependent; amplitudes and probabilities are compared
+            del o["U"]
+        out[key] = (float(b.frequency), o)
     return out
 
 
@@ -559,7 +586,7 @@ def compare_states(ctx, simname, oa, ob, sg, pi_full, tol, sign_info=None):
     if simname == "fgaussian":
         idx = np.array([2 * s + q for s in sg for q in (0, 1)])
         judge("covariance", _maxdev(oa["cov"], ob["cov"][np.ix_(idx, idx)]), tol)
-    if simname == "passive":
+    if simname == "passive" and "U" in oa and "U" in ob:
         if oa["U"].shape != ob["U"].shape:
             bad.append(("interferometer-shape", float("inf"), 0.0))
         elif len(oa["U"]) == len(pi_full):
@@ -572,7 +599,27 @@ def compare_states(ctx, simname, oa, ob, sg, pi_full, tol, sign_info=None):
     return bad
 
 
-def compare_results(ctx, doc, case, kind, obs_a, obs_b, pi, tol, ffock_sign=None):
+def compare_results(ctx, doc, partner, case, kind, obs_a, obs_b, pi, tol, ffock_sign=None):
+    """Tuple-order semantics first; a passive program whose explicit measurement tuple covers all active modes is retried
+    under the ascending-order behaviour of the unchanged tree and, if that explains everything, reported under its own key."""
+    if kind != "commute" and (has_full_tuple_quirk(doc) or has_full_tuple_quirk(partner)):
+        keep = len(ctx.violations)
+        if _compare_results(ctx, doc, partner, case, kind, obs_a, obs_b, pi, tol, ffock_sign, False):
+            first = ctx.violations[keep:]
+            del ctx.violations[keep:]
+            if _compare_results(ctx, doc, partner, case, kind, obs_a, obs_b, pi, tol, ffock_sign, True):
+                del ctx.violations[keep:]
+                ctx.violations.extend(first)
+            else:
+                ctx.viol("passive:full-measurement-ignores-tuple-order",
+                         "ParticleNumberMeasurement on a tuple that covers all active modes returns the outcome in ascending mode "
+                         "order instead of the order of the tuple (a partial measurement follows the tuple): %s" % first[0]["message"], case)
+            return True
+        return False
+    return _compare_results(ctx, doc, partner, case, kind, obs_a, obs_b, pi, tol, ffock_sign, False)
+
+
+def _compare_results(ctx, doc, partner, case, kind, obs_a, obs_b, pi, tol, ffock_sign, quirk):
     """obs_a: branch map of p; obs_b: of the partner; pi = label permutation (identity for exchanges)."""
     simname = doc["sim"]
     remaining = active_before(doc)[-1]
@@ -580,7 +627,7 @@ def compare_results(ctx, doc, case, kind, obs_a, obs_b, pi, tol, ffock_sign=None
     ctx.c["branch_map_comparisons"] += 1
     expect = {}
     for o in obs_a:
-        expect[map_outcome(doc, pi, o) if kind != "commute" else o] = o
+        expect[map_outcome(doc, partner, pi, o, quirk) if kind != "commute" else o] = o
     hit = False
     for ob_key in sorted(set(expect) | set(obs_b), key=repr):
         a = obs_a.get(expect.get(ob_key)) if ob_key in expect else None
@@ -683,10 +730,15 @@ def judge_pair(ctx, pq, kind, doc, partner, case, pi, base=None):
             ctx.c["sample_comparisons"] += 1
             live = {k: w for k, (w, _) in oa.items() if w > FILTER * 1.1}
             if set(live) != {exp} or abs(live[exp] - 1.0) > 4 * tol:
-                ctx.viol("sampler:%s:routing" % simname, "deterministic program has the exact branch map %s, the photons are routed to %s" % (
-                    sorted(live.items())[:4], exp), case)
-                return ra
-        compare_results(ctx, doc, case, kind, oa, ob, pi, tol,
+                if set(live) == {routed_outcome(doc, True)}:
+                    ctx.viol("passive:full-measurement-ignores-tuple-order",
+                             "deterministic program: exact branch map %s, the photons are routed to %s in the order of the measurement tuple" % (
+                                 sorted(live.items())[:4], exp), case)
+                else:
+                    ctx.viol("sampler:%s:routing" % simname, "deterministic program has the exact branch map %s, the photons are routed to %s" % (
+                        sorted(live.items())[:4], exp), case)
+                    return ra
+        compare_results(ctx, doc, partner, case, kind, oa, ob, pi, tol,
                         ffock_sign_factor(doc, pi) if kind != "commute" else (1.0 if simname == "ffock" else None))
     else:
         judge_sampled(ctx, doc, partner, case, kind, ra[1], rb[1], pi, tol)
@@ -714,21 +766,34 @@ def judge_sampled(ctx, doc, partner, case, kind, res_a, res_b, pi, tol):
             ctx.viol("%s:gaussian:post-measurement-covariance" % kind,
                      "covariance after a mid-circuit general-dyne measurement differs from the %s partner by %.3g > tol %.3g" % (kind, dev, tol), case)
         return
-    exp = routed_outcome(doc)
     sa = [tuple(int(x) for x in s) for s in res_a.samples]
     sb = [tuple(int(x) for x in s) for s in res_b.samples]
     ctx.c["sample_comparisons"] += 1
     ctx.c["deterministic_routing_checks"] += 1
-    if len(sa) != doc["shots"] or any(s != exp for s in sa):
-        ctx.viol("sampler:%s:routing" % simname, "deterministic program returned samples %s, the photons are routed to %s" % (sa[:4], exp), case)
-        return
-    expb = map_outcome(doc, pi, exp) if kind in ("relabel", "sampler") else exp
-    if len(sb) != doc["shots"] or any(s != expb for s in sb):
-        ctx.viol("sampler:%s:relabelled-samples" % simname,
-                 "relabelled deterministic program returned samples %s, expected %s (original: %s)" % (sb[:4], expb, exp), case)
+    problems = []
+    for quirk in (False, True):
+        exp = routed_outcome(doc, quirk)
+        expb = map_outcome(doc, partner, pi, exp, quirk)
+        problems = []
+        if len(sa) != doc["shots"] or any(s != exp for s in sa):
+            problems.append(("sampler:%s:routing" % simname,
+                             "deterministic program returned samples %s, the photons are routed to %s" % (sa[:4], exp)))
+        elif len(sb) != doc["shots"] or any(s != expb for s in sb):
+            problems.append(("sampler:%s:relabelled-samples" % simname,
+                             "relabelled deterministic program returned samples %s, expected %s (original: %s)" % (sb[:4], expb, exp)))
+        if not problems:
+            if quirk:
+                ctx.viol("passive:full-measurement-ignores-tuple-order",
+                         "sampling a deterministic program: %s" % first[0][1], case)
+            return
+        if not quirk:
+            first = problems
+            if not (has_full_tuple_quirk(doc) or has_full_tuple_quirk(partner)):
+                break
+    ctx.viol(first[0][0], first[0][1], case)
 
 
-def routed_outcome(doc):
+def routed_outcome(doc, quirk=False):
     """Independent oracle for number states through phased permutation matrices / diagonal gates."""
     from vf.gen import matrices as M
 
@@ -750,6 +815,8 @@ def routed_outcome(doc):
                 new[mi] = occ[modes[j]]
             occ.update(new)
         elif t == "ParticleNumberMeasurement":
+            if quirk and doc["sim"] == "passive" and set(modes) == set(acts[k]):
+                modes = sorted(modes)
             out.extend(occ[m] for m in modes)
         elif t in ("Phaseshifter", "Fourier", "Kerr", "CrossKerr", "ControlledPhase"):
             pass
@@ -1044,7 +1111,9 @@ def gen_ffock(rng, tier, for_commute):
         amps = rng.normal(size=len(occs)) + 1j * rng.normal(size=len(occs))
         amps /= np.linalg.norm(amps)
         ins.append({"t": "FockStateVector", "m": None, "p": {"fock_amplitude_map": G.enc_map({tuple(o): a for o, a in zip(occs, amps)})}})
-    pool = list(PASSIVE) + ["ControlledPhase"] + (["Squeezing2", "IsingXX"] if full else [])
+    # ControlledPhase on a truncated space (cutoff < d+1) raises IndexError on the unchanged tree (index list built for the
+    # full space; a C17 matter) and the post-measurement gates below would hit it too: full space only
+    pool = list(PASSIVE) + (["ControlledPhase", "Squeezing2", "IsingXX"] if full else [])
     span = d if rng.random() < 0.5 else max(2, d - 1)  # narrower windows leave blocks that can move
     for _ in range(int(rng.integers(2 if for_commute else 1, 7))):
         name = str(rng.choice(pool))
@@ -1075,7 +1144,7 @@ def gen_ffock(rng, tier, for_commute):
         ins.append({"t": "ParticleNumberMeasurement", "m": mm, "p": {}})
         left = [a for a in range(d) if a not in mm]
         for _ in range(int(rng.integers(1, 3))):
-            if rng.random() < 0.5 or len(left) < 2:
+            if rng.random() < 0.5 or len(left) < 2 or not full:
                 g = {"t": "Phaseshifter", "m": [int(rng.choice(left))], "p": {"phi": G.angle(rng)}}
             else:
                 g = {"t": "ControlledPhase", "m": [int(x) for x in rng.permutation(left)[:2]], "p": {"phi": G.angle(rng)}}
@@ -1249,7 +1318,7 @@ def plan(tier, seed):
     q = tier == "quick"
     counts = {  # programs per shard (relabel: x2 permutations each; commute: all admissible exchanges each)
         "relabel": {"purefock": 45, "fock": 30, "gaussian": 90, "passive": 45, "fgaussian": 70, "ffock": 60},
-        "commute": {"purefock": 40, "fock": 25, "gaussian": 70, "passive": 40, "fgaussian": 60, "ffock": 50},
+        "commute": {"purefock": 60, "fock": 35, "gaussian": 80, "passive": 60, "fgaussian": 90, "ffock": 60},
     }
     specs = []
     k = 0
